@@ -1378,24 +1378,30 @@ func (f *Facts) LoopBackStates(callRe string) []*pstate {
 	if len(sites) == 0 {
 		return nil
 	}
-	cb := sites[0].Block()
-	// innermost loop head dominating cb with a back edge source dominated by head and reachable from cb
+	// innermost loop head dominating the call's block with a back edge source dominated by head and reachable from
+	// it; the first call site that lies inside a loop decides (a site on an exit path of the loop is not "in" it)
 	var head *ssa.BasicBlock
-	for h := range f.loopHead {
-		if !h.Dominates(cb) {
-			continue
-		}
-		inLoop := false
-		for _, p := range h.Preds {
-			if h.Dominates(p) && reaches(cb, p, h) {
-				inLoop = true
+	for _, site := range sites {
+		cb := site.Block()
+		for h := range f.loopHead {
+			if !h.Dominates(cb) {
+				continue
+			}
+			inLoop := false
+			for _, p := range h.Preds {
+				if h.Dominates(p) && reaches(cb, p, h) {
+					inLoop = true
+				}
+			}
+			if !inLoop {
+				continue
+			}
+			if head == nil || head.Dominates(h) {
+				head = h
 			}
 		}
-		if !inLoop {
-			continue
-		}
-		if head == nil || head.Dominates(h) {
-			head = h
+		if head != nil {
+			break
 		}
 	}
 	if head == nil {
